@@ -40,7 +40,8 @@ Inductive check :=
 | CkNone
 | CkDS (tbl : list (Z * Z))        (* dsbase: digest length by digest type; type 0 reserved *)
 | CkCAA                            (* tag.isalnum() *)
-| CkZONEMD.                        (* scheme, hash algorithm != 0; SHA384/SHA512 digest sizes *)
+| CkZONEMD                         (* scheme, hash algorithm != 0; SHA384/SHA512 digest sizes *)
+| CkGPOS.                          (* three decimal strings; |latitude| <= 90, |longitude| <= 180 *)
 
 (* ------------------------------------------------------------------ integers *)
 
@@ -191,6 +192,61 @@ Fixpoint assoc (k : Z) (t : list (Z * Z)) : option Z :=
 Definition is_alnum (c : Z) : bool :=
   ((48 <=? c) && (c <=? 57)) || ((65 <=? c) && (c <=? 90)) || ((97 <=? c) && (c <=? 122)).
 
+(* GPOS: ASCII decimal strings.  _validate_float_string, then float(latitude) in [-90, 90] and
+   float(longitude) in [-180, 180].  float() rounds correctly; 90.0 and 180.0 have even mantissas,
+   so float(s) > L  iff  s > L + ulp(L)/2 exactly, with ulp(90) = 2^-46 and ulp(180) = 2^-45. *)
+Definition is_dig (c : Z) : bool := (48 <=? c) && (c <=? 57).
+Definition all_digits (s : list Z) : bool := negb (Nat.eqb (length s) 0) && forallb is_dig s.
+Definition dec_value (s : list Z) : Z := fold_left (fun a c => a * 10 + (c - 48)) s 0.
+
+Fixpoint split_dot (s : list Z) : list Z * option (list Z) :=
+  match s with
+  | [] => ([], None)
+  | c :: r => if c =? 46 then ([], Some r)
+              else let '(a, b) := split_dot r in (c :: a, b)
+  end.
+
+(* -> Some (negative, integer digits, fraction digits) when the string passes _validate_float_string *)
+Definition parse_float (s : list Z) : option (bool * list Z * list Z) :=
+  match s with
+  | [] => None
+  | c :: r =>
+      let neg := c =? 45 in
+      let body := if (c =? 45) || (c =? 43) then r else s in
+      if all_digits body then Some (neg, body, [])
+      else
+        match split_dot body with
+        | (lft, Some rgt) =>
+            (* exactly one dot: the right part must not contain another one *)
+            match split_dot rgt with
+            | (_, Some _) => None
+            | (_, None) =>
+                if Nat.eqb (length lft) 0 && Nat.eqb (length rgt) 0 then None
+                else if negb (Nat.eqb (length lft) 0) && negb (all_digits lft) then None
+                else if negb (Nat.eqb (length rgt) 0) && negb (all_digits rgt) then None
+                else Some (neg, lft, rgt)
+            end
+        | (_, None) => None
+        end
+  end.
+
+(* |value| > L + 2^-k  (value = int.frac) *)
+Definition mag_exceeds (i f : list Z) (L k : Z) : bool :=
+  let n := dec_value (i ++ f) in
+  let p := 10 ^ (zlen f) in
+  n * 2 ^ k >? (L * 2 ^ k + 1) * p.
+
+Definition gpos_coord_ok (s : list Z) (L k : Z) : bool :=
+  match parse_float s with
+  | Some (_, i, f) => negb (mag_exceeds i f L k)
+  | None => false
+  end.
+
+Definition gpos_ok (lat lon alt : list Z) : bool :=
+  gpos_coord_ok lat 90 47 && gpos_coord_ok lon 180 46
+  && match parse_float alt with Some _ => true | None => false end.
+
+
 Definition check_ok (ck : check) (vs : list val) : bool :=
   match ck with
   | CkNone => true
@@ -214,6 +270,11 @@ Definition check_ok (ck : check) (vs : list val) : bool :=
           negb (scheme =? 0) && negb (alg =? 0)
           && (negb (alg =? 1) || (zlen digest =? 48))
           && (negb (alg =? 2) || (zlen digest =? 64))
+      | _ => false
+      end
+  | CkGPOS =>
+      match vs with
+      | [VS (VB lat); VS (VB lon); VS (VB alt)] => gpos_ok lat lon alt
       | _ => false
       end
   end.
@@ -410,6 +471,7 @@ Definition check_wf (ck : check) (fs : list fld) : bool :=
   | CkDS _, [FS (FU _ _); FS (FU _ _); FS (FU _ _); FRemaining _] => true
   | CkCAA, [FS (FU _ _); FS (FCounted _ _ _); FRemaining _] => true
   | CkZONEMD, [FS (FU _ _); FS (FU _ _); FS (FU _ _); FRemaining _] => true
+  | CkGPOS, [FS (FCounted _ _ _); FS (FCounted _ _ _); FS (FCounted _ _ _)] => true
   | _, _ => false
   end.
 
